@@ -134,6 +134,12 @@ type cfg struct {
 	InjRenego bool `json:"inject_renegotiation_info,omitempty"`
 	// mitm: the last byte of the ServerKeyExchange signature is inverted in flight
 	BadSig bool `json:"corrupt_skx_signature,omitempty"`
+	// the ServerKeyExchange signature fault family. mitm + BadSig: which byte of the signature is inverted in flight
+	// ("first", "middle", "last"; "" = last). std: "other-key" = the server signs with SrvKey, a key of the same type that is
+	// not the key of its certificate (the wire is untouched). Whether the client enforces the verification of the
+	// server (InsecureSkipVerify off / on) is the Enforce switch with PKI = "trusted".
+	SigFault string `json:"skx_signature_fault,omitempty"`
+	SrvKey   string `json:"server_signing_key,omitempty"`
 
 	// std mode: certificate scenario ("" = chain to the client's root, valid, name srv.example;
 	// "untrusted" = the client trusts another root; "expired" = leaf expired; "wrongname" = the client names
@@ -171,7 +177,7 @@ func (c cfg) String() string {
 	}{{c.SNI, "sni"}, {c.ALPN, "alpn"}, {c.OCSP, "ocsp"}, {c.SCT, "sct"}, {c.Ticket, "ticket"}, {c.Max13, "max13"}, {c.Chain2, "chain2"},
 		{c.ReqOCSP, "req-status"}, {c.ReqSCT, "req-sct"}, {c.EMS, "ems"}, {c.HB, "hb"}, {c.Renego, "renego"}, {c.HRR, "hrr"},
 		{c.ForceTicket, "force-ticket-ext"}, {c.InjEMS, "inject-ems"}, {c.InjHB, "inject-hb"}, {c.InjUnk, "inject-unknown"},
-		{c.InjRenego, "inject-renego"}, {c.BadSig, "corrupt-skx-signature"}, {c.PKI != "", "pki=" + c.PKI}, {c.Enforce, "enforce"},
+		{c.InjRenego, "inject-renego"}, {c.BadSig, "corrupt-skx-signature"}, {c.SigFault != "", "skx-signature-fault=" + c.SigFault}, {c.SrvKey != "", "server-signs-with=" + c.SrvKey}, {c.PKI != "", "pki=" + c.PKI}, {c.Enforce, "enforce"},
 		{c.ExtRandom, "extended-random"}, {c.Refuse != "", "refuse=" + c.Refuse},
 		{c.Mode == "alert", fmt.Sprintf("alert(pos=%d,level=%d,desc=%d)", c.AlertPos, c.AlertLevel, c.AlertDesc)}} {
 		if p.on {
@@ -313,6 +319,10 @@ func build(cf cfg) (cc, sc *tls.Config, id *ident, ckl, skl *bytes.Buffer) {
 	if cf.SCT {
 		crt.SignedCertificateTimestamps = sctList()
 	}
+	if cf.SrvKey != "" {
+		// the certificate stays, the signing key is another one of the same type
+		crt.PrivateKey = fx.Signer(cf.SrvKey)
+	}
 	sc.Certificates = []tls.Certificate{crt}
 	sc.MinVersion, sc.MaxVersion = cf.Vers, cf.Vers
 	sc.NextProtos = []string{"http/1.1", "h2"}
@@ -448,7 +458,7 @@ func injectedExts(cf cfg) []byte {
 // corruptSKXSignature inverts the last byte of the ServerKeyExchange message (the end of its signature) inside the
 // plaintext handshake records of one server write. The handshake messages of the first flight are not fragmented
 // across records by the server, but several messages may share a record.
-func corruptSKXSignature(data []byte) []byte {
+func corruptSKXSignature(data []byte, where string, dhe, tls12 bool) []byte {
 	out := append([]byte(nil), data...)
 	off := 0
 	for off+5 <= len(out) {
@@ -465,7 +475,17 @@ func corruptSKXSignature(data []byte) []byte {
 					break
 				}
 				if out[p] == hsServerKeyExchange && ml > 0 {
-					out[p+4+ml-1] ^= 0xff
+					at := p + 4 + ml - 1
+					if where == "first" || where == "middle" {
+						// the signature is the last vector of the message (RFC 5246 7.4.3): located by the harness' own parser
+						if sk, err := parseSKX(out[p+4:p+4+ml], dhe, tls12); err == nil && len(sk.SigBytes) > 0 {
+							at = p + 4 + ml - len(sk.SigBytes)
+							if where == "middle" {
+								at += len(sk.SigBytes) / 2
+							}
+						}
+					}
+					out[at] ^= 0xff
 					return out
 				}
 				p += 4 + ml
@@ -580,7 +600,7 @@ func runCase(cf cfg) []connResult {
 							} else {
 								data = injectIntoServerHello(data, inj)
 								if cf.BadSig {
-									data = corruptSKXSignature(data)
+									data = corruptSKXSignature(data, cf.SigFault, su0(cf.Suite).Kx == "DHE_RSA", cf.Vers >= 0x0303)
 								}
 							}
 							firstFlight = append([]byte(nil), data...)
@@ -667,7 +687,8 @@ func evalCase(cf cfg) (o caseOut) {
 		}
 		o.traces++
 	}
-	if cf.aborts() {
+	if cf.aborts() || (cf.SigFault != "" && !a[0].OK) {
+		// (a ServerKeyExchange signed by another key: whether the client goes on is its decision; the log is compared either way)
 		evalMitm(cf, &o, a[0])
 		return
 	}
@@ -708,6 +729,9 @@ func evalCase(cf cfg) (o caseOut) {
 		kind := "fresh"
 		if r.Resumed {
 			kind = "resumed"
+		}
+		if cf.SigFault != "" {
+			kind = "skx-signed-by-another-key(InsecureSkipVerify=" + fmt.Sprint(!cf.Enforce) + "):completed"
 		}
 		vn := map[uint16]string{0x0301: "1.0", 0x0302: "1.1", 0x0303: "1.2", 0x0304: "1.3"}[w.Vers]
 		o.outcomes["connection:"+kind+":TLS"+vn+":"+su.Kx]++
@@ -843,6 +867,17 @@ func evalMitm(cf cfg, o *caseOut, r connResult) {
 	}
 	if cf.BadSig {
 		kindName = "mitm-corrupt-skx-signature"
+	}
+	if cf.SigFault != "" {
+		vf := "verification-enforced"
+		if !cf.Enforce {
+			vf = "InsecureSkipVerify"
+		}
+		if cf.BadSig {
+			kindName = "mitm-corrupt-skx-signature(" + cf.SigFault + " byte," + vf + ")"
+		} else {
+			kindName = "skx-signed-by-another-key(" + vf + "):aborted"
+		}
 	}
 	if r.OK {
 		o.outcomes["aborting-scenario:handshake-unexpectedly-completed"]++
@@ -1057,11 +1092,21 @@ func space(thorough bool) []cfg {
 			c.InjEMS, c.InjHB, c.InjUnk, c.InjRenego = m&1 != 0, m&2 != 0, m&4 != 0, m&8 != 0
 			add(c)
 		}
-		// the ServerKeyExchange signature corrupted in flight (nothing injected)
+		// the ServerKeyExchange signature fault family (nothing injected), every class with a signed ServerKeyExchange x version:
+		// one signature byte (first / middle / last) inverted in flight, or the server signing with a key that is not its
+		// certificate's (wire untouched) x client {enforces the verification, InsecureSkipVerify}
 		if k := su0(b.Suite).Kx; k != "RSA" && k != "TLS13" {
-			c := b
-			c.BadSig = true
-			add(c)
+			for _, enforce := range []bool{true, false} {
+				for _, where := range []string{"first", "middle", "last"} {
+					c := b
+					c.BadSig, c.SigFault, c.PKI, c.Enforce = true, where, "trusted", enforce
+					add(c)
+				}
+				c := b
+				c.Mode, c.SigFault, c.PKI, c.Enforce = "std", "other-key", "trusted", enforce
+				c.SrvKey = map[string]string{"rsa2048": "rsa2048b", "p256": "p256b"}[c.Cert]
+				add(c)
+			}
 		}
 	}
 
@@ -1146,7 +1191,7 @@ type witness struct {
 
 func main() {
 	ev.Main("C28", "model_checking", func(c *ev.Ctx) {
-		c.Rule("every configuration of the lattice {TLS 1.0..1.3} x {every implemented suite of RSA / ECDHE-RSA / ECDHE-ECDSA / DHE-RSA / TLS 1.3} x certificate key x curve x {fresh, resumed via ticket} x extension switches (quick: strength-2 orthogonal array over the switches + all-on row; thorough: full product; fingerprinted hellos also with heartbeat / EMS / extended_random / renegotiation_info) is run twice on a real client+server pair; plus handshakes that are meant to fail and whose log is still compared: ServerHello extended in flight by every non-empty subset of {EMS, heartbeat, unknown, non-empty renegotiation_info}, ServerKeyExchange signature corrupted, server answer replaced by a plaintext alert (TLS 1.2: all 256 descriptions x {warning, fatal} x {instead of, after the ServerHello}; undefined levels 0/3/255; TLS 1.0 and 1.3: 10 descriptions), server refusing suite / version, and certificate scenarios {trusted, untrusted root, expired leaf, wrong name} x {recorded, enforced} x {leaf, leaf+intermediate} per version; a case is distinct by its configuration; non-trivial = log compared with the wire")
+		c.Rule("every configuration of the lattice {TLS 1.0..1.3} x {every implemented suite of RSA / ECDHE-RSA / ECDHE-ECDSA / DHE-RSA / TLS 1.3} x certificate key x curve x {fresh, resumed via ticket} x extension switches (quick: strength-2 orthogonal array over the switches + all-on row; thorough: full product; fingerprinted hellos also with heartbeat / EMS / extended_random / renegotiation_info) is run twice on a real client+server pair; plus handshakes that are meant to fail and whose log is still compared: ServerHello extended in flight by every non-empty subset of {EMS, heartbeat, unknown, non-empty renegotiation_info}, the ServerKeyExchange signature fault family for every class with a signed ServerKeyExchange (ECDHE-RSA, ECDHE-ECDSA, DHE-RSA with ForceSuites) x TLS 1.0/1.1/1.2 x {first, middle, last signature byte inverted in flight; server signs with another key of the same type than its certificate's, wire untouched} x client {verification enforced, InsecureSkipVerify}: whatever ServerKeyExchange log exists afterwards equals the wire (params, complete signature bytes, signature/hash type) with valid=false and a signature_error (independent verification), and where the client carries on (DHE with InsecureSkipVerify; with the other key the handshake completes) the rest of the log is compared as for any other connection, server answer replaced by a plaintext alert (TLS 1.2: all 256 descriptions x {warning, fatal} x {instead of, after the ServerHello}; undefined levels 0/3/255; TLS 1.0 and 1.3: 10 descriptions), server refusing suite / version, and certificate scenarios {trusted, untrusted root, expired leaf, wrong name} x {recorded, enforced} x {leaf, leaf+intermediate} per version; a case is distinct by its configuration; non-trivial = log compared with the wire")
 		c.Assume(
 			"the wire transcript is what tlsx.Net recorded from the endpoints' Write calls (man-in-the-middle cases: what was delivered to the client)",
 			"pre-master and master secret of full handshakes are recomputed without the client: RSA by decrypting the wire ClientKeyExchange with the server key; (EC)DHE from the SERVER endpoint's ephemeral private value (its own handshake log), accepted only if crypto/ecdh / math/big derive the ServerKeyExchange public value on the wire from it, combined with the client's public value on the wire; master = harness PRF (RFC 5246 8.1). Both key logs must name that master secret. Resumed connections inherit it. TLS 1.3 flights are opened with the key-log traffic secrets by the harness' own AEAD code (a wrong secret cannot open them)",
